@@ -55,19 +55,51 @@ def map_iteration_sites(facts):
 PUSH = r"Vec::<T, A>::push$"
 
 
+EXTEND = r"iter::Extend::extend$"
+SET_INSERT = r"collections::(BTreeSet|HashSet)::<[^>]*>::(insert|replace)$|collections::(BTreeMap|HashMap)::<[^>]*>::(insert|entry)$"
+
+
+def set_accumulator(b):
+    """A set / map filled inside the loop over the query map (`BTreeSet<(name, value)>`, extended or inserted into):
+    returns (block, collection type) or None. A set is ordered like the sorted vector but keeps only one of several
+    identical name=value pairs - the canonical query is a function of the *multiset*."""
+    for bi, t in b.calls(EXTEND):
+        rf = t.get("resolved_full", "")
+        m = re.match(r"<(std::collections::(?:BTreeSet|HashSet|BTreeMap|HashMap))<", rf)
+        if m and b.in_cycle(bi):
+            return bi, m.group(1)
+    for bi, t in b.calls(SET_INSERT):
+        if b.in_cycle(bi):
+            return bi, re.search(r"collections::(\w+)", t["callee"]).group(0)
+    return None
+
+
 def acc_info(b):
-    """The vector of (name, value) pairs of canonicalize_query_to_string, in either of two sibling idioms:
-    form 'loop': a Vec pushed inside the loop over the map; form 'collect': an iterator pipeline over the map
+    """The vector of (name, value) pairs of canonicalize_query_to_string, in one of three sibling idioms:
+    form 'loop': a Vec pushed inside the loop over the map; form 'extend': a Vec extended inside the loop over the
+    map with `values.iter().map(|value| (name, value))`; form 'collect': an iterator pipeline over the map
     (filter / flat_map(values.iter().map(..))) collected into a Vec."""
     accs = {}
     for bi, t in b.calls(PUSH):
         if b.in_cycle(bi):
             for pl in b.pointees()[op_local(t["args"][0])]:
                 accs.setdefault(pl, []).append((bi, t))
-    if len(accs) == 1:
+    exts = {}
+    for bi, t in b.calls(EXTEND):
+        if b.in_cycle(bi) and t.get("resolved_full", "").startswith("<std::vec::Vec<"):
+            for pl in b.pointees()[op_local(t["args"][0])]:
+                exts.setdefault(pl, []).append((bi, t))
+    if len(accs) == 1 and not exts:
         acc, pushes = list(accs.items())[0]
         return {"form": "loop", "acc": acc, "pushes": pushes}
-    if not accs:
+    if len(exts) == 1 and not accs:
+        acc, es = list(exts.items())[0]
+        if len(es) == 1:
+            bi, t = es[0]
+            src, stages = pipeline_of(b, t["args"][1])
+            stages = [x for x in stages if x[0] != "into_iter"]
+            return {"form": "extend", "acc": acc, "pushes": es, "src": src, "stages": stages}
+    if not accs and not exts:
         cols = []
         for bi, t in b.calls(r"Iterator::collect$"):
             src, stages = pipeline_of(b, t["args"][0])
@@ -76,7 +108,22 @@ def acc_info(b):
         if len(cols) == 1:
             bi, t, src, stages = cols[0]
             return {"form": "collect", "acc": t["dest"]["local"], "collect": (bi, t), "src": src, "stages": [x for x in stages if x[0] != "into_iter"]}
-    raise AnchorMissing("single accumulator vector in canonicalize_query_to_string (found %d)" % len(accs))
+    raise AnchorMissing("single accumulator vector in canonicalize_query_to_string (found %d)" % (len(accs) + len(exts)))
+
+
+def extend_shape(b, info):
+    """Shape of the extend-form: `pairs.extend(values.iter().map(|value| (name, value)))`. Returns (problems, element operand):
+    the operand is the mapped closure's result in the parent's locals (the closure was spliced by the normaliser)."""
+    src, stages = info["src"], info["stages"]
+    if not (src and src[0] == "def" and src[1]["kind"] == "call" and re.search(r"slice::<impl \[T\]>::iter$|Vec::<T, A>::iter$", src[1]["term"]["callee"])):
+        return ["the extended iterator does not start at the value list's .iter()"], None
+    names = [x[0] for x in stages]
+    if names != ["map"]:
+        return ["extended pipeline %s: expected exactly values.iter().map(closure) (a filter / take / skip / dedup stage would drop values)" % names], None
+    t = stages[0][2]
+    if "summary_operand" not in t:
+        return ["the mapped closure could not be spliced (not a closure literal)"], None
+    return [], t["args"][t["summary_operand"]]
 
 
 def collect_shape(b, info):
@@ -197,17 +244,27 @@ def r1(ctx):
     it = [x for x in b.calls(MAP_ITER)]
     if not it:
         raise AnchorMissing("map iteration in canonicalize_query_to_string")
+    sa = set_accumulator(b)
+    if sa:
+        yield VIOL("C10-R1", "canonicalize_query_to_string/pairs-collection", "the (name, value) pairs are gathered in a `%s`: a set or map keeps one of several identical name=value pairs, the canonical query is a function of the multiset of parameters" % sa[1], where=b.span_of_block(sa[0]))
+        return
     info = acc_info(b)
     acc = info["acc"]
+    if info["form"] == "extend":
+        pr, _ = extend_shape(b, info)
+        if pr:
+            yield MISSING("C10-R1", "canonicalize_query_to_string/extend-shape", "; ".join(pr), where=b.span_of_block(info["pushes"][0][0]))
+            return
     sorts = [d for d in b.defs().get(acc, []) if d["kind"] == "mutcall" and re.search(r"slice::<impl \[T\]>::sort(_unstable)?(_by|_by_key|_by_cached_key)?$", d["term"]["callee"])]
     rets = b.return_blocks()
     # besides push / sort, nothing may change the collected pairs (dedup, retain, truncate, pop, remove .. lose or
     # reorder parameters: repeated name=value pairs are part of the multiset)
     other = [d for d in b.defs().get(acc, []) if d["kind"] == "mutcall" and d not in sorts
+             and not (info["form"] == "extend" and re.search(EXTEND, d["term"]["callee"]))
              and not re.search(r"Vec::<T, A>::push$|DerefMut::deref_mut$|IntoIterator::into_iter$|Vec::<T, A>::(iter|iter_mut|len|is_empty|as_slice|as_mut_slice|reserve\w*|with_capacity)$|slice::<impl \[T\]>::(iter|len|is_empty)$|Iterator::collect$", d["term"]["callee"])]
     for d in other:
         yield VIOL("C10-R1", "canonicalize_query_to_string/pairs-op:" + d["term"]["callee"].split("::")[-1], "the collected (name, value) pairs are modified by `%s`: parameters are dropped, merged or reordered before rendering" % d["term"]["callee"], where=b.span_of_block(d["block"]))
-    if info["form"] == "loop":
+    if info["form"] in ("loop", "extend"):
         pushes = info["pushes"]
         good = [d for d in sorts if all(b.dominates(d["block"], r) for r in rets) and not any(b.reachable(d["block"], pb) for pb, _ in pushes)]
     else:
@@ -251,7 +308,27 @@ def r1(ctx):
 @M.rule("C10-R2", "sort key is (name, value), not the rendered pair")
 def r2(ctx):
     b = ctx.fn(CQS)
+    if set_accumulator(b):
+        return  # reported by C10-R1 pairs-collection
     sorts = b.calls(r"slice::<impl \[T\]>::sort(_unstable)?(_by|_by_key|_by_cached_key)?$")
+    # a sort keyed by one component of the pair: with an unstable sort the pairs that agree on that component come out in
+    # an order that depends on where the hash-map iteration put them (explicit violation); with a stable one the result
+    # depends on an earlier ordering this rule does not model (fails closed below, as any comparator does)
+    partial = False
+    for bi_, t_ in sorts:
+        rcv = b.origin_def(t_["args"][0])
+        whole = bool(rcv and rcv[0] == "def" and rcv[1]["kind"] == "call" and re.search(r"DerefMut::deref_mut$|as_mut_slice$", rcv[1]["term"]["callee"]))
+        if whole and re.search(r"sort_unstable_by_key$", t_["callee"]) and len(t_["args"]) > 1:
+            cd = b.origin_def(t_["args"][1])
+            if cd and cd[0] == "def" and cd[1]["kind"] == "assign" and cd[1]["stmt"]["rv"].get("closure"):
+                kb = b.facts.find_bodies("^" + re.escape(cd[1]["stmt"]["rv"]["closure"]) + "$", include_absorbed=True)
+                if kb:
+                    comps = {fs[:1] for l, fs in kb[0].slice([0]).fieldreads if l == 2 and fs}
+                    if len(comps) == 1 and not kb[0].calls():
+                        partial = True
+                        yield VIOL("C10-R2", "canonicalize_query_to_string/sort-key-partial:%s" % ("name" if comps == {("0",)} else "value"), "`%s` orders the pairs by their %s alone: an unstable sort leaves pairs that agree on it in an order that depends on the hash-map iteration (and the slice's length), so the canonical query differs between runs" % (t_["callee"].split("::")[-1], "name" if comps == {("0",)} else "value"), where=b.span_of_block(bi_))
+    if partial:
+        return
     s = one(sorts, "sort call in canonicalize_query_to_string")
     ctx.count()
     callee = s[1]["callee"]
@@ -280,7 +357,13 @@ def r2(ctx):
         return
     pushes = info["pushes"]
     p = one(pushes, "push into the accumulator")
-    od = b.origin_def(p[1]["args"][1])
+    elem = p[1]["args"][1]
+    if info["form"] == "extend":
+        pr, elem = extend_shape(b, info)
+        if pr:
+            yield MISSING("C10-R2", "canonicalize_query_to_string/extend-shape", "; ".join(pr), where=b.span_of_block(p[0]))
+            return
+    od = b.origin_def(elem)
     if ety.startswith("(") and od and od[0] == "def" and od[1]["kind"] == "assign" and od[1]["stmt"]["rv"].get("tuple"):
         ops = od[1]["stmt"]["rv"]["ops"]
         s0, s1 = b.slice_op(ops[0]), b.slice_op(ops[1])
@@ -292,7 +375,7 @@ def r2(ctx):
             yield VIOL("C10-R2", "canonicalize_query_to_string/sort-key", "tuple elements are not (name, value) in that order", where=b.span_of_block(p[0]))
         return
     # single-string elements: do they carry both labels?
-    es = b.slice_op(p[1]["args"][1])
+    es = b.slice_op(elem)
     has_val = es.has_call(r"slice::<impl \[T\]>::iter$")
     it = es.find_calls(MAP_ITER)
     if has_val and it:
@@ -304,6 +387,8 @@ def r2(ctx):
 @M.rule("C10-R3", "only the X-Amz-Signature parameter is excluded")
 def r3(ctx):
     b = ctx.fn(CQS)
+    if set_accumulator(b):
+        return  # reported by C10-R1 pairs-collection
     info = acc_info(b)
     if info["form"] == "collect":
         ctx.count()
@@ -356,6 +441,13 @@ def r3(ctx):
         yield VIOL("C10-R3", "canonicalize_query_to_string/filter", "the push is filtered by %d condition(s) other than exactly `name != \"X-Amz-Signature\"`" % len(conds), where=b.span_of_block(p[0]))
     else:
         yield PASS("C10-R3", "canonicalize_query_to_string/filter", "single filter: name != \"X-Amz-Signature\" (full equality)", [site(b, p[0], "push")])
+    if info["form"] == "extend":
+        pr, _ = extend_shape(b, info)
+        if pr:
+            yield VIOL("C10-R3", "canonicalize_query_to_string/all-values", "not every value of a name is listed: " + "; ".join(pr), where=b.span_of_block(p[0]))
+        else:
+            yield PASS("C10-R3", "canonicalize_query_to_string/all-values", "extend(values.iter().map(..)) with no other stage: every value is listed, duplicates are kept", [])
+        return
     # every value of a name is pushed: the push post-dominates the Some edge of the value iteration
     nx = [x for x in b.calls(r"Iterator::next$") if "slice::Iter" in x[1].get("resolved_full", "")]
     if nx:
